@@ -330,7 +330,7 @@ func (ex *Exec) convert(st *State, from, to types.Type, x Value) Value {
 				}
 				return C.BVConst(uint64(f), tw)
 			}
-			any := ex.nondet(st, fmt.Sprintf("conv_out_of_range_%d", len(st.Nondet)), smt.BV(tw))
+			any := ex.nondet(st, fmt.Sprintf("conv_out_of_range_w%d_%d", tw, len(st.Nondet)), smt.BV(tw))
 			return C.Ite(inr, val, any)
 		}
 		if tw, tsigned, ok := intWidth(to); ok && tsigned && tw == 64 {
